@@ -22,10 +22,13 @@ def _mk_subset_problem():
 
     class QuadSubset(SubsetProblem):
         """score = sum a[i] + sum_{i<j} b[i][j] (+ second separable objective a2); cv = max(0, sum g - cap)"""
-        def __init__(self, space, k, a, b, g, cap, a2=None, g2=None, cap2=None, objint=False, unit=1):
+        def __init__(self, space, k, a, b, g, cap, a2=None, g2=None, cap2=None, objint=False, unit=1, signed=False):
             # objint: the objective vector is returned with an integer dtype (scores are integer counts); unit: violations
             # are reported in units of 1/unit (unit = 2: halves, exact in binary) -- TLC sees the integer loads and caps
             self.objint = bool(objint); self.unit = int(unit)
+            # signed: the constraint functions report the signed slack load - cap (negative when satisfied, as pymoo's convention
+            # allows), so feasible members of one front carry DIFFERENT constraint values
+            self.signed = bool(signed)
             self.pos = {int(v): p for p, v in enumerate(space)}
             self.a = np.array(a, float); self.b = np.array(b, float); self.g = np.array(g, float)
             self.cap = cap; self.a2 = None if a2 is None else np.array(a2, float)
@@ -42,9 +45,10 @@ def _mk_subset_problem():
             ix = [self.pos[int(v)] for v in x]
             s = self.a[ix].sum() + sum(self.b[ix[p], ix[q]] for p in range(len(ix)) for q in range(p + 1, len(ix)))
             obj = [s] if self.a2 is None else [s, self.a2[ix].sum()]
-            cv = [] if self.cap is None else [max(0.0, self.g[ix].sum() - self.cap)]
+            lo_ = -np.inf if self.signed else 0.0
+            cv = [] if self.cap is None else [max(lo_, self.g[ix].sum() - self.cap)]
             if self.cap2 is not None:
-                cv.append(max(0.0, self.g2[ix].sum() - self.cap2))
+                cv.append(max(lo_, self.g2[ix].sum() - self.cap2))
             return np.array(obj, "int64" if self.objint else float), np.array(cv, float) / self.unit, np.array([], float)
     return QuadSubset
 
@@ -358,7 +362,8 @@ def run(ctx):
             k = rng.randrange(1, n - 1)
             space, a, b, g, cap, g2, cap2 = rand_subset_data(rng, n, k, rng.random() < 0.5, rng.random() < 0.5)
             a2 = [rng.randrange(-4, 5) for _ in range(n)]
-            prob = QuadSubset(space, k, a, b, g, cap, a2=a2, g2=g2, cap2=cap2, objint=rng.random() < 0.4, unit=rng.choice([1, 1, 2, 4]))
+            prob = QuadSubset(space, k, a, b, g, cap, a2=a2, g2=g2, cap2=cap2, objint=rng.random() < 0.4, unit=rng.choice([1, 1, 2, 4]),
+                              signed=rng.random() < 0.5)
             before = snapshot(prob)
             seed = rng.randrange(2 ** 31)
             np.random.seed(seed)
@@ -387,7 +392,7 @@ def run(ctx):
                 o = [toint(v) for v in so[s]] if so.ndim == 2 else [None, None]
                 sols.append({"decn": [pos.get(toint(v), -1) for v in dec[s]],
                              "o1": o[0] if o[0] is not None else 10 ** 6, "o2": o[1] if o[1] is not None else 10 ** 6,
-                             "cv": cvlist(sc[s], c["ncon"], prob.unit) if (c["ncon"] and sc.ndim == 2) else []})
+                             "cv": cvlist(np.maximum(np.asarray(sc[s], float), 0.0), c["ncon"], prob.unit) if (c["ncon"] and sc.ndim == 2) else []})
             c.update(sols=sols, lat=bool(lat), dtypeok=bool(dec.ndim == 2 and np.issubdtype(dec.dtype, np.integer)),
                      unchanged=snapshot(prob) == before)
             finish_case(c, cls)
